@@ -467,8 +467,8 @@ func helperSuccessResults(v ssa.Value) (*ssa.Call, []helperResult) {
 	return call, out
 }
 
-// callsOrHelpers lists the calls of specs in fn and the calls in fn of extracted
-// single-call-site helpers that (statically) reach one of specs: for ordering rules the
+// callsOrHelpers lists the calls of specs in fn and the calls in fn of unexported helpers
+// (only ever called statically) that (statically) reach one of specs: for ordering rules the
 // helper call stands for the operation it wraps.
 func (h *H) callsOrHelpers(fn *ssa.Function, specs ...ir.Callee) []ssa.CallInstruction {
 	out := h.P.CallsIn(fn, specs...)
@@ -478,7 +478,10 @@ func (h *H) callsOrHelpers(fn *ssa.Function, specs ...ir.Callee) []ssa.CallInstr
 			return
 		}
 		g := ci.Common().StaticCallee()
-		if g == nil || ir.SingleCallSite(g) != ci || g.Blocks == nil {
+		if g == nil || g.Blocks == nil || !ir.InRepo(g) || len(ir.StaticCallSites(g)) == 0 {
+			return
+		}
+		if h.P.Matches(ci.Common(), specs[0]) {
 			return
 		}
 		if h.P.CallStaticallyReaches(ci, h.P.MatchPred(specs...)) {
